@@ -48,7 +48,7 @@ def generate_mixed(chk, tier, seed, ncases=None, label="c02"):
     out = []
     seen = set()
     for steps in ((6, 9) if tier == "quick" else (5, 7, 9, 12)):
-        n = ncases or (700 if tier == "quick" else 12000)
+        n = ncases or (600 if tier == "quick" else 3000)
         path = os.path.join(vlib.workdir("tlc"), f"gen_mix_{steps}.cfg")
         with open(path, "w") as f:
             f.write(f"CONSTANTS Steps = {steps} Fuel = 60 RmMode = 1\nINIT Init\nNEXT Next\nINVARIANT Emit\nCHECK_DEADLOCK FALSE\n")
